@@ -1,3 +1,44 @@
-From PV Require Import Life.Model.
-Theorem placeholder : True. Proof. exact I. Qed.
-Print Assumptions placeholder.
+(** C09 Exit status truth.  Property theorems only; proofs in Life/Proofs.v.  The child process, signal delivery,
+    waitpid and the wait-status encoding are a MODEL (Life/Model.v); [Inv] is the invariant of every state reachable
+    from a fresh spawn by isalive / wait / kill / terminate and by the child dying on its own. *)
+From Coq Require Import ZArith List Bool.
+Import ListNotations.
+From PV Require Import Life.Model Life.Proofs.
+Local Open Scope Z_scope.
+
+(** the W* macros decode what an exit code / a terminating signal encodes *)
+Theorem C09_decode_exit : forall c, 0 <= c < 256 ->
+  WIFEXITED (status_of_exit c) = true /\ WEXITSTATUS (status_of_exit c) = c /\ WIFSIGNALED (status_of_exit c) = false.
+Proof. exact decode_exit. Qed.
+Print Assumptions C09_decode_exit.
+Theorem C09_decode_signal : forall s, 1 <= s < 127 ->
+  WIFEXITED (status_of_signal s) = false /\ WIFSIGNALED (status_of_signal s) = true /\ WTERMSIG (status_of_signal s) = s.
+Proof. exact decode_signal. Qed.
+Print Assumptions C09_decode_signal.
+
+(** the invariant holds initially and after every sequence of operations (every disposition of the child, every
+    interleaving with the child exiting or being killed by itself) *)
+Theorem C09_invariant : forall ih ii st ops, Forall wf_op ops -> forallb no_close ops = true ->
+  Inv (fold_left (fun w o => snd (lstep w o)) ops (world0 ih ii st)).
+Proof. intros. apply steps_inv; auto. apply world0_inv. Qed.
+Print Assumptions C09_invariant.
+
+(** whenever the object says terminated: the child is dead and reaped, status is its wait status, exactly one of
+    exitstatus / signalstatus is set and it is what that status decodes to *)
+Theorem C09_status_truth : forall w, Inv w -> s_terminated (sp w) = true ->
+  alive (ch w) = false /\ reaped (ch w) = true /\ s_status (sp w) = Some (fate (ch w)) /\
+  (s_exit (sp w), s_sig (sp w)) = fields_of (fate (ch w)) /\
+  ((exists c, s_exit (sp w) = Some c /\ s_sig (sp w) = None) \/ (exists g, s_exit (sp w) = None /\ s_sig (sp w) = Some g)).
+Proof. exact status_truth. Qed.
+Print Assumptions C09_status_truth.
+
+(** and the values never change afterwards *)
+Theorem C09_status_stable : forall w o, Inv w -> wf_op o -> no_close o = true -> s_terminated (sp w) = true ->
+  let w' := snd (lstep w o) in
+  s_terminated (sp w') = true /\ s_status (sp w') = s_status (sp w) /\ s_exit (sp w') = s_exit (sp w) /\ s_sig (sp w') = s_sig (sp w).
+Proof. exact status_stable. Qed.
+Print Assumptions C09_status_stable.
+
+Example C09_example : let w := fold_left (fun w o => snd (lstep w o)) [OEnv (EExit 7); OIsalive] (world0 false false false) in
+  (s_terminated (sp w), s_exit (sp w), s_sig (sp w), s_status (sp w)) = (true, Some 7, None, Some 1792).
+Proof. vm_compute. reflexivity. Qed.
